@@ -33,6 +33,7 @@ RULE = (
     "and PenlogReader returns every marker record logged by the command in order; the lock file can be flock()ed without blocking "
     "afterwards; the run_meta row has end_time and the same exit_code; hooks saw GALLIA_HOOK / GALLIA_ARTIFACTS_DIR / GALLIA_INVOCATION "
     "and, for post, GALLIA_EXIT_CODE and GALLIA_META consistent with META.json; a failing or missing hook changes none of the above (nor does a hook that takes 11 s: thorough tier); a command run twice back to back leaves two intact run directories. "
+    "Further: an expected error followed by a programming error in teardown (70); Ctrl-C while the pre-hook runs (child process); META times lie within the run. "
     "Non-trivial: anything but (return x all resources off). Distinct by combination."
 )
 ASSUMPTIONS = [
